@@ -19,7 +19,9 @@ META = {
     "clone / GeoJSON-Feature default of EPSG:4326 / explicit argument / refusal, BoundingBox and its static constructors, "
     "Geometry.transform(crs=...)), CRS == <anything that is not a CRS>, the `== 'epsg:4326' or None` dispatch of "
     "BoundingBox.aoi / map_bounds, the hemisphere arithmetic of norm_crs('utm-n' / 'utm-s') for every zone, and the CRS "
-    "carried by the result of every single-operand operation of Geometry / BoundingBox, composed with the mismatch theorem "
+    "carried by the result of every single-operand operation of Geometry / BoundingBox / GeoBox (linked to C02's model: every "
+    "GeoBox view keeps the CRS), composed with the mismatch theorem; the utm arithmetic is linked to C11's normUtm and the ranking "
+    "of _pick_best_crs (C11.pickBest) is shown to sit behind the C01 guard (region & poly is Geometry.__and__) "
     "(a mismatch cannot be laundered through derived operands).  Every op x ordered tag pair x geometry kind is compared "
     "with the real call (verdict, CRS tag, raw shapely / CRS-stripped result); n-ary operations also along the LENGTH axis "
     "(8 ... 4097 operands around powers of two, list / tuple / iterator / generator, odd operand first / second / middle / "
@@ -39,7 +41,7 @@ META = {
     "CRS.utm(BoundingBox in a projected CRS spanning two zones) raises CRSMismatchError where a Geometry is converted), "
     "crs_units_per_degree (uses to_crs; C07); geobox.py — the pixel arithmetic behind pixel_translation (C16), "
     "GeoBox.from_bbox/from_geopolygon CRS defaulting, footprint, GeoboxTiles._check_linear/_grid_intersect_linear arithmetic, "
-    "single-operand GeoBox operations (C02).",
+    "GeoBox.footprint / geographic_extent / qr2sample (C02 / C07).",
     "technique": "Lean 4 proof over hand model + exhaustive differential correspondence with real code",
     "design_ref": "DESIGN.md §4 C01",
 }
@@ -935,7 +937,7 @@ def gen_strict(C: Ctx):
     gen_long_streams(C, sets, gbs)
 
 
-LONG_QUICK = (8, 9, 33, 64, 65, 66, 67, 129, 257, 1025)
+LONG_QUICK = (8, 9, 33, 64, 65, 66, 129, 513)
 LONG_THOROUGH = (8, 9, 16, 17, 31, 32, 33, 63, 64, 65, 66, 67, 127, 128, 129, 255, 256, 257, 511, 512, 513, 1023, 1024, 1025,
                  2049, 4097)
 GBX_CYCLE = ("g0", "shift", "far", "shift", "g0")
@@ -962,7 +964,7 @@ def gen_long_streams(C: Ctx, sets, gbs):
            ("geobox.geobox_union_conservative", "geobox-long", 513), ("geobox.geobox_intersection_conservative", "geobox-long", 513))
     for name, kind, cap in ops:
         for n in lengths:
-            if n > (cap if not R.quick else min(cap, 1025 if "bbox" in kind or name == "geom.common_crs" else 257)):
+            if n > (cap if not R.quick else min(cap, 513 if "bbox" in kind or name == "geom.common_crs" else 129)):
                 continue
             if kind == "bbox-long":
                 raws = [rbox(i) for i in range(n)]
